@@ -87,7 +87,9 @@ CASE_TIMEOUT = 300
 MIN_EVALS = 200
 
 # ---- frozen tolerances (calibration: see worst_observed in evidence; values in the final report) -------------------
-AREA_TOL = 0.30            # tr-nnls: |area/R_pol - 1|
+AREA_TOL = 0.30            # tr-nnls: |area/R_pol - 1|, per run (method-accuracy bound)
+AREA_FRAC_2PCT = 0.35      # per cell: allowed fraction of runs with |area/R_pol - 1| > 2 %  (observed <= 0.09)
+AREA_FRAC_5PCT = 0.15      # per cell: allowed fraction of runs with |area/R_pol - 1| > 5 %  (observed <= 0.023)
 PEAK_STEPS_RC = 4.0        # tr-nnls: RC element, nearest returned peak, in grid steps ...
 PEAK_DEC_RC = 0.30         # ... or within this many decades, whichever is larger
 PEAK_DEC_RQ = 0.75         # tr-nnls: RQ element, nearest returned peak, in decades
@@ -429,6 +431,9 @@ def _check_nnls_result(acc, cell, tag, rep, lad, f, r):
     else:
         acc.obs(cell + "/area_vs_sumR[with-rq,info]" + sfx, abs(area / Rsum - 1.0))
     acc.stat(cell + "/area-checked")
+    for thr in (0.01, 0.02, 0.05, 0.10):
+        if dev > thr:
+            acc.stat(cell + f"/area-dev>{thr}")
     if not dev <= AREA_TOL or (all_rc and not abs(area / Rsum - 1.0) <= AREA_TOL):
         acc.bad(vkey + "area", f"integral of gamma over ln(tau) = {area:.6g}, polarisation resistance {Rwin:.6g} (sum R_k {Rsum:.6g}); "
                 f"lambda={lam!r} ppd={lad['ppd']}", rep)
@@ -865,7 +870,22 @@ def finalize(agg):
     if runs and skipped > 0.2 * runs:
         inc.append(f"{skipped} of {runs} TR-NNLS runs hit scipy's nnls iteration limit even with max_iter={MAX_ITER}")
     worst = sorted((x for x in agg["aggs"] if isinstance(x, dict)), key=lambda x: -x["gamma_rel"])[:2]
-    return {"viol": [], "inconclusive": inc,
+    # aggregate area clause: the per-run bound (AREA_TOL) is a method-accuracy bound; systematic area errors of a few
+    # percent show up in the DISTRIBUTION of the deviation.  Observed on the unchanged tree over 3 quick seeds
+    # (768 runs per cell): fraction with |area/R_pol - 1| > 2 % <= 0.09 (real-mode cells: 0.0), > 5 % <= 0.023.
+    viol = []
+    for m, lk in NNLS_CELLS:
+        cell = f"tr-nnls/{m}/{lk}"
+        n = st.get(cell + "/area-checked", 0)
+        if n >= 100:
+            f2 = st.get(cell + "/area-dev>0.02", 0) / n
+            f5 = st.get(cell + "/area-dev>0.05", 0) / n
+            if f2 > AREA_FRAC_2PCT or f5 > AREA_FRAC_5PCT:
+                viol.append({"key": f"C13/{cell}/area-distribution",
+                             "msg": f"{cell}: {f2:.1%} of {n} runs have an area more than 2 % off the polarisation resistance (allowed {AREA_FRAC_2PCT:.0%}), "
+                                    f"{f5:.1%} more than 5 % off (allowed {AREA_FRAC_5PCT:.0%})",
+                             "witness": {"cell": cell, "runs": n, "frac_gt_2pct": f2, "frac_gt_5pct": f5}})
+    return {"viol": viol, "inconclusive": inc,
             "info": {"nnls_maxiter_skipped": skipped, "tr_nnls_runs": runs,
                      "automatic_lambda_twins_differing_by_more_than_1pct[info, not a verdict]": len(agg["aggs"]),
                      "worst_automatic_lambda_twins[info]": worst}}
